@@ -9,6 +9,8 @@ symbolic variable selects an occurrence class; the engine certifies that all |D5
 import json
 import os
 
+import xmlschema
+
 from engine.sym import pick
 from oracles import cm
 from props import cmshapes as S
@@ -110,7 +112,7 @@ def h_known(**kw) -> bool:
 def known_replay(config):
     """plain-interpreter replay of every listed known vector of this obligation's shape (called by the worker after
     the analysis, tracer off): how many still disagree with the oracle"""
-    listed = sorted(STATE["known"])
+    listed = sorted(STATE.get("known", ()))
     rep = 0
     ex = None
     for idx in listed:
@@ -123,6 +125,9 @@ def known_replay(config):
 
 
 def explain(fn, args):
+    if fn == "h_strict_build":
+        return "XSD %s content model %s as %s: expected %s by a strict build" % (
+            CFG["version"], B_MODELS[args["m"]][0], B_KINDS[args["k"]], "accepted" if B_MODELS[args["m"]][1] else "rejected")
     idx = _full(args)
     vec = [D5[i] for i in idx]
     got, want = _verdicts(idx)
@@ -160,6 +165,50 @@ META = {
 }
 
 
+# ---------------------------------------------------------------- strict build of derived types (weak form, construction)
+B_MODELS = [('<xs:element name="a" minOccurs="0"/><xs:element name="a"/>', False),                      # (a?, a): UPA
+            ('<xs:element name="a"/><xs:element name="b"/>', True),
+            ('<xs:element name="x" type="xs:string"/><xs:element name="b"/><xs:element name="x" type="xs:int"/>', False),   # EDC
+            ('<xs:element name="a" minOccurs="0"/><xs:element name="b"/>', True),
+            ('<xs:choice><xs:element name="a"/><xs:sequence><xs:element name="a"/><xs:element name="b"/></xs:sequence></xs:choice>', False)]
+B_KINDS = ["plain", "restriction-of-wildcard-base", "extension-of-empty-base", "restriction-of-anyType", "local-type-of-element"]
+
+
+def pre_build(fn, m, k):
+    return 0 <= m < len(B_MODELS) and 0 <= k < len(B_KINDS)
+
+
+def h_strict_build(m: int, k: int) -> bool:
+    """the schema constructor (strict mode) accepts a complex type exactly when its content model is deterministic and
+    consistent, whatever way the type is derived"""
+    from engine.sym import real_io
+    from xmlschema.exceptions import XMLSchemaException
+    model, ok = B_MODELS[pick(m, len(B_MODELS))]
+    kind = B_KINDS[pick(k, len(B_KINDS))]
+    seq = '<xs:sequence>%s</xs:sequence>' % model
+    if kind == "plain":
+        body = '<xs:complexType name="T">%s</xs:complexType>' % seq
+    elif kind == "restriction-of-wildcard-base":
+        body = ('<xs:complexType name="B"><xs:sequence><xs:any processContents="lax" minOccurs="0" maxOccurs="unbounded"/></xs:sequence></xs:complexType>'
+                '<xs:complexType name="T"><xs:complexContent><xs:restriction base="B">%s</xs:restriction></xs:complexContent></xs:complexType>' % seq)
+    elif kind == "extension-of-empty-base":
+        body = ('<xs:complexType name="B"><xs:attribute name="q"/></xs:complexType>'
+                '<xs:complexType name="T"><xs:complexContent><xs:extension base="B">%s</xs:extension></xs:complexContent></xs:complexType>' % seq)
+    elif kind == "restriction-of-anyType":
+        body = '<xs:complexType name="T"><xs:complexContent><xs:restriction base="xs:anyType">%s</xs:restriction></xs:complexContent></xs:complexType>' % seq
+    else:
+        body = '<xs:element name="e"><xs:complexType>%s</xs:complexType></xs:element>' % seq
+    text = '<xs:schema xmlns:xs="http://www.w3.org/2001/XMLSchema">%s</xs:schema>' % body
+    with real_io():
+        cls = xmlschema.XMLSchema10 if CFG["version"] == "1.0" else xmlschema.XMLSchema11
+        try:
+            cls(text)
+            accepted = True
+        except XMLSchemaException:
+            accepted = False
+    return accepted == ok
+
+
 def obligations(tier, seed):
     import random
     cat = S.catalogue()
@@ -195,14 +244,23 @@ def obligations(tier, seed):
     else:
         plan += [(s, "1.1") for s in c11]
         dplan = [(s, v) for s in deep for v in ("1.0", "1.1")]
+    edc = S.catalogue_edc()
+    plan += [(s, v) for s in edc for v in ("1.0", "1.1")]
     for s, v in plan:
         n = len(S.nodes_preorder(s))
+        label = S.shape_id(s).replace(' ', '')
+        if s in edc:          # the rendering drops the type labels: name the obligation after the leaf tokens
+            label = "edc:" + label + ":" + ",".join(x[1] for x in S.nodes_preorder(s) if x[0] == 'e').replace(':', '=')
         out.append({
-            "name": "check/%s/%s" % (v, S.shape_id(s).replace(' ', '')),
+            "name": "check/%s/%s" % (v, label),
             "fn": "h_check", "pre": "pre_vec", "args": [["i%d" % k, "int"] for k in range(n)],
             "config": {"shape": s, "version": v, "mask": None}, "timeout": to, "twin_timeout": 30,
             "bound": "%d particles, %d occurrence vectors" % (n, len(D5) ** n),
         })
+    for v in ("1.0", "1.1"):
+        out.append({"name": "strict-build/%s" % v, "fn": "h_strict_build", "pre": "pre_build", "args": [["m", "int"], ["k", "int"]],
+                    "config": {"shape": None, "version": v, "mask": None}, "timeout": 300, "twin_timeout": 30,
+                    "bound": "%d content models x derivation kinds %r, schema constructed in strict mode (finite choice; construction outside the tracer)" % (len(B_MODELS), B_KINDS)})
     for s, v in dplan:
         mask = deep_mask(s)
         out.append({
